@@ -29,6 +29,8 @@ VALUE = [
   F('Value::float', props=['C17'], spec="        ensures !(self is Number) ==> r is Err,  // @C17 accessor.float",
     ops=[Closure(0, "|num: f64| -> (r: Result<f64>) ensures r == Ok::<f64, Error>(num)")]),
   F('<Value as From<&str>>::from', props=['C17'], spec="    ensures r matches Value::String(s) && s@ == value@,  // @C17 from.str"),
+  # checked against its FromSpecImpl (from_spec(v) == Value::Number(v)): the literal's digits and scale reach the value unchanged
+  F('<Value as From<Decimal>>::from', props=['C03', 'C09', 'C17'], spec=""),
 ] + [
   F('<Value as From<%s>>::from' % ty, props=['C17'],
     spec="    ensures r matches Value::Number(d) && is_int(d, value as int),  // @C17 from.%s" % ty,
